@@ -48,7 +48,8 @@ def run_auto(case, evaluator=None):
     from gcmpy.message_passing.equations.automated_equation import AutomatedEquation
     tr = {"kind": "poly", "what": "automated", "case": case, "V": list(case["V"]), "E": [list(e) for e in case["E"]],
           "root": case["root"], "terms": [], "malformed": False, "raised": "",
-          "zero_u": [v for v in case.get("zero_u", []) if v != case["root"]], "one_u": [v for v in case.get("one_u", []) if v != case["root"]]}
+          "zero_u": [v for v in case.get("zero_u", []) if v != case["root"]], "one_u": [v for v in case.get("one_u", []) if v != case["root"]],
+          "neg_u": []}
     ae = evaluator or AutomatedEquation()
     us = {v: Poly.var("u%d" % v) for v in case["V"] if v != case["root"]}
     # some vertices carry the NUMBERS 0 or 1 instead of an indeterminate (u = 0 and coinciding u values are legal inputs):
@@ -63,10 +64,14 @@ def run_auto(case, evaluator=None):
     # The result is scaled by 2^(number of halves) so that the substituted polynomial keeps integer coefficients.
     tr["two_u"] = [v for v in case.get("two_u", []) if v != case["root"] and v not in tr["zero_u"] + tr["one_u"]]
     tr["half_u"] = [v for v in case.get("half_u", []) if v != case["root"] and v not in tr["zero_u"] + tr["one_u"] + tr["two_u"]]
+    # ... or the number -1 (u is any real number: sums of u values over a vertex subset may cancel exactly)
+    tr["neg_u"] = [v for v in case.get("neg_u", []) if v != case["root"] and v not in tr["zero_u"] + tr["one_u"] + tr["two_u"] + tr["half_u"]]
     for v in tr["two_u"]:
         us[v] = Fraction(2)
     for v in tr["half_u"]:
         us[v] = Fraction(1, 2)
+    for v in tr["neg_u"]:
+        us[v] = -1
     try:
         with watchdog(60):
             # the focal vertex is given as an EQUAL id, not as the graph's own node object (ids above 256 are not interned)
@@ -90,15 +95,21 @@ def run_auto_numeric(case, evaluator):
         pass
 
 
-def run_clique(tau):
+def run_clique(tau, one_u=(), two_u=(), neg_u=()):
+    """clique_equation with indeterminate neighbour values; some neighbours may carry the NUMBERS 1, 2 or -1 instead
+    (arbitrary, possibly different values: elementary symmetric sums of them may vanish exactly)"""
     import gcmpy
     V = list(range(tau))
     E = [list(e) for e in itertools.combinations(V, 2)]
-    tr = {"kind": "poly", "what": "clique_equation", "case": {"kind": "clique", "tau": tau}, "V": V, "E": E, "root": 0,
-          "terms": [], "malformed": False, "raised": "", "zero_u": [], "one_u": [], "two_u": [], "half_u": []}
+    tr = {"kind": "poly", "what": "clique_equation", "case": {"kind": "clique", "tau": tau, "one_u": list(one_u), "two_u": list(two_u), "neg_u": list(neg_u)},
+          "V": V, "E": E, "root": 0,
+          "terms": [], "malformed": False, "raised": "", "zero_u": [], "one_u": list(one_u), "two_u": list(two_u), "half_u": [], "neg_u": list(neg_u)}
+    val_of = lambda v: 1 if v in one_u else 2 if v in two_u else -1 if v in neg_u else Poly.var("u%d" % v)
     try:
         with watchdog(120):
-            val = gcmpy.clique_equation(tau, Poly.var("p"), [Poly.var("u%d" % v) for v in V[1:]])
+            val = gcmpy.clique_equation(tau, Poly.var("p"), [val_of(v) for v in V[1:]])
+        if not isinstance(val, Poly):
+            val = Poly.const(val)
         tr["terms"], tr["malformed"] = poly_terms(val)
     except Timeout:
         raise
